@@ -100,6 +100,7 @@ impl From<PartialGame> for Game {
 		res is Ok ==> (*old(r)).rest().len() >= expected@.len() && (*old(r)).rest().subrange(0, expected@.len() as int) == expected@
 			&& (*final(r)).rest() == skip((*old(r)).rest(), expected@.len() as int)
 			&& (*final(r)).consumed() == (*old(r)).consumed() + expected@ && !(*final(r)).hit_eof() /*[C06.expect_bytes]*/,
+		(*old(r)).rest().len() >= expected@.len() && (*old(r)).rest().subrange(0, expected@.len() as int) == expected@ ==> res is Ok /*[C01.expected_bytes_accepted]*/,
 //@end
 
 // ---------------- src/io/slippi/de.rs: incremental API ----------------
@@ -110,9 +111,35 @@ pub open spec fn file_signature() -> Seq<u8> { seq![0x7bu8, 0x55, 0x03, 0x72, 0x
 		res is Ok ==> (*old(r)).rest().len() >= 15 && (*old(r)).rest().subrange(0, 11) == file_signature()
 			&& res->Ok_0 == be_u32((*old(r)).rest(), 11) && (*final(r)).rest() == skip((*old(r)).rest(), 15) && !(*final(r)).hit_eof() /*[C12.header]*/,
 		res is Ok ==> (*final(r)).consumed().len() == (*old(r)).consumed().len() + 15,
+		(*old(r)).rest().len() >= 15 && (*old(r)).rest().subrange(0, 11) == file_signature() ==> res is Ok /*[C01.well_formed_header_accepted]*/,
 //@end
 
 pub open spec fn sizes_wf(sizes: &PayloadSizes) -> bool { sizes[0x36] is Some && sizes[0x39] is Some }
+// the payload-size table: `n` entries of (code, big-endian u16 size); a later entry for the same code wins
+pub open spec fn table_lookup(b: Seq<u8>, n: int, c: int) -> Option<int>
+	decreases n
+{
+	if n <= 0 { None } else if b[3 * (n - 1)] as int == c { Some(be_u16(b, 3 * (n - 1) + 1) as int) } else { table_lookup(b, n - 1, c) }
+}
+pub open spec fn entry_size(b: Seq<u8>, k: int) -> int { be_u16(b, 3 * k + 1) as int }
+pub open spec fn table_nonzero(b: Seq<u8>, n: int) -> bool { forall|k: int| 0 <= k < n ==> #[trigger] entry_size(b, k) != 0 }
+pub open spec fn size_of(sizes: &PayloadSizes, c: int) -> Option<int> { match sizes[c] { Some(n) => Some(n@ as int), None => None } }
+pub open spec fn payload_table_ok(rest: Seq<u8>) -> bool {
+	&&& rest.len() >= 2 && rest[0] == 0x35 && rest[1] % 3 == 1 && rest.len() >= 1 + rest[1]
+	&&& table_nonzero(rest.subrange(2, 1 + rest[1]), (rest[1] - 1) / 3)
+	&&& table_lookup(rest.subrange(2, 1 + rest[1]), (rest[1] - 1) / 3, 0x36) is Some
+	&&& table_lookup(rest.subrange(2, 1 + rest[1]), (rest[1] - 1) / 3, 0x39) is Some
+}
+pub proof fn lemma_lookup_nonzero(b: Seq<u8>, n: int, c: int)
+	requires table_nonzero(b, n), table_lookup(b, n, c) is Some,
+	ensures table_lookup(b, n, c)->Some_0 > 0,
+	decreases n,
+{
+	if n > 0 {
+		if b[3 * (n - 1)] as int == c { assert(entry_size(b, n - 1) != 0); } else { lemma_lookup_nonzero(b, n - 1, c); }
+	}
+}
+pub open spec fn table_read(sizes: &PayloadSizes, b: Seq<u8>, n: int) -> bool { forall|c: int| 0 <= c < 256 ==> #[trigger] size_of(sizes, c) == table_lookup(b, n, c) }
 //@fn src/io/slippi/de.rs | - | parse_payloads | ret=res | sigsub=/mut r: R,/r: &mut R,/ | rules=R18,R4f | drop=if let Some\(ref d\) = opts | sub=/r.read_exact(&mut buf)?/r.read_exact(buf.as_mut_slice())?/ | sub=/let buf = &mut &buf[..];/let buf = &mut buf.as_slice();/
 	requires (*old(r)).inv(), !(*old(r)).hit_eof(),
 	ensures (*final(r)).inv(), (*final(r)).stable() == (*old(r)).stable(), (*final(r)).hit_eof() ==> res is Err /*[C07.eof_is_an_error]*/,
@@ -123,15 +150,42 @@ pub open spec fn sizes_wf(sizes: &PayloadSizes) -> bool { sizes[0x36] is Some &&
 			&&& (*final(r)).rest() == skip(rest, 1 + rest[1] as int) && !(*final(r)).hit_eof()
 			&&& (*final(r)).consumed().len() == (*old(r)).consumed().len() + 1 + rest[1]
 			&&& sizes_wf(&res->Ok_0.1) /*[C06.start_and_end_sizes_present]*/
+			// every code has exactly the size the table declares for it (and none when the table does not mention it)
+			&&& table_read(&res->Ok_0.1, rest.subrange(2, 1 + rest[1]), (rest[1] - 1) / 3) /*[C08.declared_sizes_are_the_table]*/
 		}),
+		// completeness: a table of non-zero sizes that declares Game Start and Game End is accepted
+		payload_table_ok((*old(r)).rest()) ==> res is Ok /*[C08.well_formed_table_accepted]*/,
+//@before let mut sizes
+	let ghost tb = buf@;
+	let ghost mut k: int = 0;
 //@loop 1
 		invariant
 			st__ <= e__, e__ == size - 1, st__ % 3 == 0, e__ % 3 == 0, size % 3 == 1,
 			buf@.len() == e__ - st__,
+			st__ == 3 * k, tb.len() == e__, buf@ == skip(tb, st__ as int),
+			tb == (*old(r)).rest().subrange(2, 1 + size),
+			table_read(&sizes, tb, k),
+			0 <= k,
 			(*r).inv(), !(*r).hit_eof(), (*old(r)).rest().len() >= 1 + size, (*old(r)).rest()[0] == 0x35, (*old(r)).rest()[1] == size,
 			(*r).rest() == skip((*old(r)).rest(), 1 + size as int),
 			(*r).consumed().len() == (*old(r)).consumed().len() + 1 + size, (*r).stable() == (*old(r)).stable(),
 		decreases e__ - st__,
+//@before sizes[code as usize] =
+		let ghost s0 = sizes;
+		proof { assert(code == tb[3 * k] && size as int == entry_size(tb, k)); }
+//@after sizes[code as usize] =
+		proof {
+			assert forall|c: int| 0 <= c < 256 implies #[trigger] size_of(&sizes, c) == table_lookup(tb, k + 1, c) by {
+				assert(size_of(&s0, c) == table_lookup(tb, k, c));
+			}
+			k = k + 1;
+		}
+//@before sizes[Event::GameStart as usize]
+	proof {
+		assert(3 * k == size - 1);
+		assert(size_of(&sizes, 0x36) == table_lookup(tb, k, 0x36));
+		assert(size_of(&sizes, 0x39) == table_lookup(tb, k, 0x39));
+	}
 //@end
 
 //@fn src/io/slippi/de.rs | - | parse_game_start | ret=res | sigsub=/mut r: R,/r: &mut R,/ | rules=R18 | drop=if let Some\(ref d\) = opts | sub=/r.read_exact(&mut buf)?/r.read_exact(buf.as_mut_slice())?/ | sub=/game_start(&mut &*buf)?/game_start(&mut buf.as_slice())?/
@@ -146,6 +200,11 @@ pub open spec fn sizes_wf(sizes: &PayloadSizes) -> bool { sizes[0x36] is Some &&
 			&&& (*final(r)).consumed().len() == (*old(r)).consumed().len() + 1 + size
 			&&& game_start_spec(rest.subrange(1, 1 + size)) == Some(res->Ok_0.1) /*[C04.start_block_parsed_from_its_payload]*/
 		}),
+		({
+			let rest = (*old(r)).rest();
+			let size = match payload_sizes[rest[0] as int] { Some(n) => n@ as int, None => 0 };
+			rest.len() >= 1 && rest[0] == 0x36 && size > 0 && rest.len() >= 1 + size && game_start_spec(rest.subrange(1, 1 + size)) is Some
+		}) ==> res is Ok /*[C01.well_formed_game_start_accepted]*/,
 //@end
 
 // ---- parse_start: payload table + Game Start, then the empty column set for the occupied ports
@@ -171,9 +230,23 @@ pub open spec fn port_indexes_ok(st: &ParseState) -> bool {
 			&&& (forall|k: int| 0 <= k < st.game.frames.ports@.len() ==> (#[trigger] st.game.frames.ports@[k]).port == st.game.start.players@[k].port
 					&& (st.game.frames.ports@[k].follower is Some) == (st.game.start.players@[k].character == 14)) /*[C04.one_slot_per_player_follower_iff_ics]*/
 		}),
+		// completeness: a well-formed payload table followed by a well-formed Game Start event is accepted
+		({
+			let rest = (*old(r)).rest();
+			let size = table_lookup(rest.subrange(2, 1 + rest[1]), (rest[1] - 1) / 3, 0x36)->Some_0;
+			let rest2 = skip(rest, 1 + rest[1] as int);
+			payload_table_ok(rest) && rest2.len() >= 1 + size && rest2[0] == 0x36 && game_start_spec(rest2.subrange(1, 1 + size)) is Some
+		}) ==> res is Ok /*[C01.well_formed_start_accepted]*/,
+		res is Ok ==> table_read(&res->Ok_0.payload_sizes, (*old(r)).rest().subrange(2, 1 + (*old(r)).rest()[1]), ((*old(r)).rest()[1] - 1) / 3) /*[C08.declared_sizes_are_the_table]*/,
 //@loop 1
 		invariant ie__ <= ve__@.len(), ve__@.len() == game.frames.ports@.len(),
 		decreases ve__@.len() - ie__,
+//@before let (bytes_read, start)
+	proof {
+		let rest = (*old(r)).rest();
+		assert(size_of(&payload_sizes, 0x36) == table_lookup(rest.subrange(2, 1 + rest[1]), (rest[1] - 1) / 3, 0x36));
+		if payload_table_ok(rest) { lemma_lookup_nonzero(rest.subrange(2, 1 + rest[1]), (rest[1] - 1) / 3, 0x36); }
+	}
 //@end
 
 //@fn src/io/slippi/de.rs | - | parse_metadata | ret=res | sigsub=/mut r: R,/r: &mut R,/ | sub=/&mut r,/&mut *r,/ | sub=/ubjson::read_map(&mut r)?/ubjson::read_map(&mut *r)?/
